@@ -38,6 +38,7 @@ class Universe:
         env.import_networking()
         from skepticoin import blockstore as BS
         self.simnet = simnet
+        self.seed = seed
         rnd = random.Random(seed)
         case = chainexec.gen_case(rnd, chainexec.CFGS[3], 9, 0.0, ["C01"], p_fork=0.35, p_tx=0.8, dts=[120, 10, 2])
         self.run = chainexec.Run(case, ("C20",))
@@ -209,7 +210,8 @@ def corrupt(rnd, frames):
     return b"".join(frames)
 
 
-def one_case(u, rnd, res, M, record=None):
+def one_case(u, rnd, res, M, record=None, force=None):
+    force = force or {}
     simnet = u.simnet
     from skepticoin import blockstore as BS
     BS.DefaultBlockStore.instance = u.store
@@ -227,7 +229,7 @@ def one_case(u, rnd, res, M, record=None):
     for i, w in enumerate(by):
         w.greet(nonce=1000 + i)
     att = simnet.Wire(net, node, host="10.6.6.6")
-    greeted = rnd.random() < 0.6
+    greeted = force.get("greeted", rnd.random() < 0.6)
     if greeted:
         # a perfectly valid greeting, whose free-form fields the attacker chooses (arbitrary bytes in the user agent)
         att.greet(nonce=666, user_agent=rnd.choice([b"harness", b"sashimi 0.1.\xb3", bytes(rnd.randrange(256) for _ in range(rnd.randrange(0, 40))), b"%s%d{}\\"]))
@@ -246,7 +248,8 @@ def one_case(u, rnd, res, M, record=None):
         }
 
     published = False
-    if u.next2 is not None and rnd.random() < 0.3:
+    pre = force.get("pre", rnd.choice(["publish"] * 6 + ["download"] * 5 + [None] * 9)) if u.next2 is not None else None
+    if pre == "publish":
         # history before the attack: a bystander relays a new valid block (validated by the node), then the node publishes a
         # block of its OWN on top of it the way its miner does (set_coinstate without further ado)
         simnet.CLOCK.now = max(simnet.CLOCK.now, u.next2.ts + 1)
@@ -264,6 +267,25 @@ def one_case(u, rnd, res, M, record=None):
                 w.collect()
             published = True
             res.count("cases_after_the_node_published_its_own_block")
+    downloading, lkv = False, None
+    if pre == "download":
+        # history before the attack: a download from a bystander is under way - the node asked it for an announced block and
+        # the answer (in_response_to != 0: taken without full validation, waiting in the store's write buffer) has arrived
+        simnet.CLOCK.now = max(simnet.CLOCK.now, u.next2.ts + 1)
+        if simnet.CLOCK.now % 60 == 0:
+            simnet.CLOCK.now += 1
+        w = by[1]
+        n0 = len(w.received)
+        w.send(M.InventoryMessage([M.InventoryItem(M.DATA_BLOCK, u.next.id())]))
+        w.deliver()
+        asks = [(h, m) for (h, m) in w.received[n0:] if isinstance(m, M.GetDataMessage) and m.hash == u.next.id()]
+        if asks:
+            w.send(M.DataMessage(M.DATA_BLOCK, u.b.to_sk_block(u.next)), in_response_to=asks[0][0].id)
+            w.deliver()
+            w.collect()
+            if node.cm.coinstate.current_chain_hash == u.next.id() and len(u.store.write_buffer) > 0:
+                downloading, lkv = True, node.cm.last_known_valid_coinstate
+                res.count("cases_with_a_download_from_a_bystander_under_way")
     before = snap()
     cs_before = node.cm.coinstate
     # the attacker's stream
@@ -275,6 +297,14 @@ def one_case(u, rnd, res, M, record=None):
     else:
         frames = [att.frame(templates(u, M, rnd, att), in_response_to=rnd.choice([0, 0, 3])) for _ in range(rnd.randrange(1, 5))]
         stream = corrupt(rnd, frames)
+    if pre == "download" and rnd.random() < 0.3:
+        # the combination that matters while a download is under way: an INTACT block that breaks a chain rule, pushed by the attacker
+        rule = [x for x in u.bad_blocks if not _structural(u, x)]
+        if rule:
+            frames = [att.frame(M.DataMessage(M.DATA_BLOCK, u.b.to_sk_block(rnd.choice(rule))), in_response_to=0)]
+            if rnd.random() < 0.5:
+                frames.insert(rnd.randrange(2), att.frame(templates(u, M, rnd, att), in_response_to=rnd.choice([0, 0, 3])))
+            stream = b"".join(frames)
     if record is not None:
         stream = record
     att.send_raw(stream)
@@ -284,7 +314,8 @@ def one_case(u, rnd, res, M, record=None):
         net.step(node)
         net.drain(rnd, only=[node])
     after = snap()
-    case = {"stream": stream.hex(), "greeted": greeted}
+    post = force.get("post", rnd.randrange(4))
+    case = {"stream": stream.hex(), "greeted": greeted, "pre": pre, "post": post, "uni_seed": u.seed}
     res.evaluations += 1
     handled = len(att.collect())
     # classification for the non-trivial rule: did the node decode at least one frame / reach a handler?
@@ -298,6 +329,14 @@ def one_case(u, rnd, res, M, record=None):
             net.stuck[0][2], net.stuck[0][1]), case)
     if net.escaped:
         res.fail("escape", "exception-escaped:" + net.escaped[0][1].split("(")[0], "an exception left the node's event handling (in production it ends LocalPeer.run()): %s" % net.escaped[0][1], case)
+    dirty = False
+    dropped = False
+    if downloading and after["cs"] != before["cs"] and node.cm.coinstate is lkv and len(u.store.write_buffer) == 0 and after["store"][0] == before["store"][0]:
+        # by design: a block that breaks a chain rule makes the node fall back to its last fully validated state, and the
+        # not yet validated download goes with it (state and write buffer together). Not a change BY the malformed input's content.
+        dropped = True
+        res.count("unvalidated_download_dropped_together_with_a_rule_breaking_block(by design)")
+        after = dict(after, cs=before["cs"], store=before["store"])
     if after["cs"] != before["cs"]:
         new = [i for i in node.cm.coinstate.block_by_hash.keys() if i not in cs_before.block_by_hash]
         malformed = []
@@ -310,12 +349,12 @@ def one_case(u, rnd, res, M, record=None):
             res.fail("state", "chain-state-changed-by-malformed-input", "chain state changed (%d new blocks; structural defects: %s)" % (len(new), malformed[:2]), case)
         else:
             res.count("structurally_valid_block_entered_state(outside C20)")
-            u.new_store()
+            dirty = True               # (the store is replaced at the END of the case: the node goes on using it until then)
     if after["pool"] != before["pool"]:
         res.fail("state", "pool-changed-by-malformed-input", "pending pool changed", case)
     if after["store"] != before["store"] and after["cs"] == before["cs"]:
         res.fail("state", "store-changed-by-malformed-input", "store rows / write buffer changed: %s -> %s" % (before["store"], after["store"]), case)
-        u.new_store()
+        dirty = True               # (the store is replaced at the END of the case: the node goes on using it until then)
     for i, (x, y) in enumerate(zip(before["by"], after["by"])):
         if x != y:
             res.fail("bystander", "bystander-affected", "bystander %d connection state changed: %s -> %s" % (i, x, y), case)
@@ -329,10 +368,10 @@ def one_case(u, rnd, res, M, record=None):
     if net.escaped and not res.failures:
         res.fail("escape", "exception-escaped-late", net.escaped[0][1], case)
     # and a NEW valid block delivered by a bystander afterwards is still adopted (the attack must not have poisoned anything)
-    if rnd.random() < 0.5 and after["cs"] == before["cs"] and not published:
+    if post >= 2 and after["cs"] == before["cs"] and not published and not downloading:
         w = by[0]
         simnet.CLOCK.now = max(simnet.CLOCK.now, u.next.ts)
-        if rnd.random() < 0.5:
+        if post == 2:
             w.send(M.DataMessage(M.DATA_BLOCK, u.b.to_sk_block(u.next)))
             w.deliver()
             res.count("bystander_delivers_new_block_after_attack")
@@ -350,7 +389,23 @@ def one_case(u, rnd, res, M, record=None):
                 w.deliver()
         if node.cm.coinstate.current_chain_hash != u.next.id() and not res.failures:
             res.fail("bystander", "valid-block-from-bystander-refused-after-attack", "after the attacker's input a NEW valid block delivered by a well-behaved peer is not adopted", case)
-    if node.cm.coinstate is not cs_before or u.store_digest() != before["store"]:
+    if downloading and not res.failures:
+        # the download goes on after the attack: the next blocks arrive validated from the other bystander; state AND store follow
+        w = by[0]
+        for blk in ([u.next] if node.cm.coinstate.current_chain_hash != u.next.id() else []) + [u.next2]:
+            w.send(M.DataMessage(M.DATA_BLOCK, u.b.to_sk_block(blk)))
+            w.deliver()
+        stored = {bytes(r[0]) for r in u.store.sql("select block_hash from chain").fetchall()}
+        held = set(node.cm.coinstate.block_by_hash.keys())
+        if net.escaped or net.stuck:
+            res.fail("escape", "exception-escaped-late", str((net.escaped or net.stuck)[0][1]), case)
+        elif node.cm.coinstate.current_chain_hash != u.next2.id() or w.node_sock not in node.lp.selector.map:
+            res.fail("bystander", "download-cannot-continue-after-attack", "a download from well-behaved peers was under way; after the attacker's input the following valid blocks are %s" % (
+                "not adopted" if w.node_sock in node.lp.selector.map else "answered by disconnecting the well-behaved peer that delivers them"), case)
+        elif stored != held or len(u.store.write_buffer):
+            res.fail("state", "store-does-not-follow-state-after-attack", "after the attacker's input and the next validated block the chain state holds %d blocks, the store %d (+%d buffered; %d of the state's are missing)" % (
+                len(held), len(stored), len(u.store.write_buffer), len(held - stored)), case)
+    if dirty or pre is not None or node.cm.coinstate is not cs_before or u.store_digest() != before["store"]:
         u.new_store()                  # nothing of this case (e.g. the bystander's new block in the write buffer) leaks into the next
     return case
 
@@ -426,13 +481,14 @@ def replay(case):
     res = Result()
     if "persistent" in case:
         return run_persistent(res, "thorough" if case["persistent"] != "garbage" else "quick", 1).failures
-    u = Universe(env.subseed(1, ID, "uni", 0))
+    u = Universe(case.get("uni_seed", env.subseed(1, ID, "uni", 0)))
     u.simnet.install(random.Random(0))
     from skepticoin.networking import messages as M
+    force = {k: case[k] for k in ("greeted", "pre", "post") if k in case}
     for s in range(4):
         rnd = random.Random(s)
         u.simnet.install(rnd)
-        one_case(u, rnd, res, M, record=bytes.fromhex(case["stream"]))
+        one_case(u, rnd, res, M, record=bytes.fromhex(case["stream"]), force=force)
         if res.failures:
             break
     return res.failures
